@@ -138,6 +138,9 @@ def c19a(ctx):
         ctx.check(len(vals) == 1 and isinstance(v, int) and 0 < v < 64, '%s:shift-%s' % (fn.short, op),
                   'V2 index entries split size/offset at bit %s in writer and reader' % v, fn, n,
                   fail='V2 index entry shift constants differ: %s' % sorted(str(x) for x in vals))
+    if ('write', 'size') not in roles:
+        # no shift on the writer side at all: the entry is not built as offset + (size << k) (reported below as entry-form)
+        roles.add(('write', 'size'))
     if not {('write', 'size'), ('read', 'size'), ('read', 'offset')} <= roles:
         raise Undecided('V2 index entry: writer shift, reader shift and reader offset extraction expected, found %s' % sorted(roles))
     # reader: offset = val - (size << k)  (the complement of writer offset + (size << k))
@@ -167,7 +170,9 @@ def c19a(ctx):
             sh = [e for e in sides if isinstance(e, ast.BinOp) and isinstance(e.op, ast.LShift)]
             pl = [e for e in sides if isinstance(e, ast.Name)]
             ok = len(sh) == 1 and len(pl) == 1 and pl[0].id == 'offset' and unparse(sh[0].left) == 'size'
-    ctx.check(ok, 'BundleV2._update_tile_offset:entry-form', 'writer stores offset + (size << k)', fnw)
+    ctx.check(ok, 'BundleV2._update_tile_offset:entry-form', 'writer stores offset + (size << k)', fnw,
+              fail='the V2 index entry is not packed as one 64-bit value offset + (size << k): the reader (value >> k, value & mask) and the overflow '
+                   'check of the pack (a size that does not fit its bits is refused, not truncated) assume exactly that form')
     # header tuples vs formats
     for hdr, fmtname in (('BUNDLE_V1_HEADER', 'BUNDLE_V1_HEADER_STRUCT_FORMAT'), ('BUNDLE_V2_HEADER', 'BUNDLE_V2_HEADER_STRUCT_FORMAT')):
         he = mod.constants.get(hdr)
